@@ -1,0 +1,24 @@
+//go:build verif
+
+// Re-exports of pkg/internal/reload for the external verification harness (property C38).
+// Type alias, constants and one thin forwarding function only.
+package verifexport
+
+import (
+	"context"
+	"time"
+
+	"go.minekube.com/gate/pkg/internal/reload"
+)
+
+type C38EventWatcher = reload.C38EventWatcher
+
+const (
+	C38DebounceDuration       = reload.C38DebounceDuration
+	C38ReconciliationInterval = reload.C38ReconciliationInterval
+)
+
+func C38WatchWithOptions(ctx context.Context, path string, cb func() error, reconcileInterval time.Duration,
+	newWatcher func(string) (C38EventWatcher, error), attached func()) error {
+	return reload.C38WatchWithOptions(ctx, path, cb, reconcileInterval, newWatcher, attached)
+}
